@@ -1,0 +1,97 @@
+//go:build verif
+
+// Contracts for package sem, read by /verif/govc (never compiled into normal builds).
+// Properties: C03, C06, C14 and sem's share of C16, C17, C18.
+
+package sem
+
+//@ config MaxInputLength
+//@ domain MaxInputLength >= 0
+//@ config Formatter = DefaultFormatter
+//@ config Parser = DefaultParser[[]byte]
+//@ config ComparePreRelease = DefaultComparePreRelease[string,string]
+
+//@ pure func withinLimit(n int) bool = MaxInputLength == 0 || n <= MaxInputLength
+
+// ---- C03: the text form ------------------------------------------------------------------------------------------
+// rest(w): the text without the optional leading 'v'
+//@ pure func hasV(w bytes) bool = len(w) > 0 && w[0] == 'v'
+//@ pure func rest(w bytes) bytes = ite(hasV(w), w[1:], w)
+// The five captures of the SemVer pattern: major, minor, patch, pre-release, build.
+//@ pure func part(w bytes, k int) bytes = submatch(pattern, rest(w), k)
+//@ pure func formOK(w bytes, f form) bool = ite(hasV(w), f&formTag != 0, f&formVersion != 0)
+//@ pure func accepts(w bytes, f form) bool = len(w) > 0 && withinLimit(len(w)) && formOK(w, f) && in(pattern, rest(w))
+//@     && decOK(part(w, 1)) && decOK(part(w, 2)) && decOK(part(w, 3))
+
+//@ func unmarshalText
+//@   ensures [C03.accept] err == nil <==> accepts(input, f)
+//@   ensures [C03.fields] err == nil ==> v.Major == decVal(part(input, 1)) && v.Minor == decVal(part(input, 2)) && v.Patch == decVal(part(input, 3))
+//@   ensures [C03.fields] err == nil ==> v.PreRelease == part(input, 4) && v.Build == part(input, 5)
+//@   ensures [C03.zero C17.zero] err != nil ==> v == Ver{} && errAs(err, *ParseError[T])
+//@   ensures [C03.class] len(input) > 0 && withinLimit(len(input)) && hasV(input) && f&formTag == 0 ==> errIs(err, ErrTagFormNotAllowed)
+//@   ensures [C03.class] len(input) > 0 && withinLimit(len(input)) && !hasV(input) && f&formVersion == 0 ==> errIs(err, ErrExpectedTagForm)
+//@   ensures [C03.class] len(input) > 0 && withinLimit(len(input)) && formOK(input, f) && in(pattern, rest(input)) && !decOK(part(input, 1)) ==> errIs(err, ErrInvalidMajor)
+//@   ensures [C03.class] len(input) > 0 && withinLimit(len(input)) && formOK(input, f) && in(pattern, rest(input)) && decOK(part(input, 1)) && !decOK(part(input, 2)) ==> errIs(err, ErrInvalidMinor)
+//@   ensures [C03.class] len(input) > 0 && withinLimit(len(input)) && formOK(input, f) && in(pattern, rest(input)) && decOK(part(input, 1)) && decOK(part(input, 2)) && !decOK(part(input, 3)) ==> errIs(err, ErrInvalidPatch)
+//@   ensures [C18.limit] len(input) > 0 && !withinLimit(len(input)) ==> errIs(err, ErrInputTooLong) && errData(err, "inputLen") == 0
+//@   ensures [C18.limit] errIs(err, ErrInputTooLong) ==> len(input) > 0 && !withinLimit(len(input))
+
+//@ func newParseError
+//@   inline
+
+// The entry points choose the allowed forms.
+//@ pure func parsed(w bytes, f form, v Ver, err error) bool = (err == nil <==> accepts(w, f))
+//@     && (err == nil ==> v.Major == decVal(part(w, 1)) && v.Minor == decVal(part(w, 2)) && v.Patch == decVal(part(w, 3)) && v.PreRelease == part(w, 4) && v.Build == part(w, 5))
+//@     && (err != nil ==> v == Ver{})
+//@ func DefaultParser
+//@   ensures [C03.accept C03.fields C03.zero] parsed(input, ite(r&RuleDisableTag == 0, formVersion|formTag, formVersion), v, err)
+//@   ensures [C17.zero] err != nil ==> errAs(err, *ParseError[T])
+//@   ensures [C18.limit] len(input) > 0 && !withinLimit(len(input)) ==> errIs(err, ErrInputTooLong) && errData(err, "inputLen") == 0
+//@   ensures [C18.limit] errIs(err, ErrInputTooLong) ==> len(input) > 0 && !withinLimit(len(input))
+//@ func Parse
+//@   ensures [C03.accept C03.fields C03.zero] parsed(input, formVersion|formTag, r0, r1)
+//@   ensures [C17.zero] r1 != nil ==> errAs(r1, *ParseError[T])
+//@ func ParseVersion
+//@   ensures [C03.accept C03.fields C03.zero] parsed(input, formVersion, r0, r1)
+//@   ensures [C17.zero] r1 != nil ==> errAs(r1, *ParseError[T])
+//@ func ParseTag
+//@   ensures [C03.accept C03.fields C03.zero] parsed(input, formTag, r0, r1)
+//@   ensures [C17.zero] r1 != nil ==> errAs(r1, *ParseError[T])
+
+// ---- formatter: [v] major . minor . patch [-pre] [+build] -----------------------------------------------------------
+//@ pure func optV(f Format) bytes = ite(f&FormatTag != 0, "v", "")
+//@ pure func optPre(v Ver) bytes = ite(v.PreRelease != "", "-", "")
+//@ pure func optBuild(v Ver) bytes = ite(v.Build != "", "+", "")
+//@ func DefaultFormatter
+//@   ensures [C03.format C16.append] err == nil
+//@   ensures [C03.format C16.append] result == old(buf) ++ optV(f) ++ decText(v.Major) ++ "." ++ decText(v.Minor) ++ "." ++ decText(v.Patch)
+//@       ++ optPre(v) ++ v.PreRelease ++ optBuild(v) ++ v.Build
+//@   ensures [C16.inplace] sameOrFresh(result, buf)
+//@   assigns buf[len(buf):]
+
+//@ func formatByVerb
+//@   ensures [C03.verb] result == ite(verb == 't', FormatTag, 0)
+
+//@ func (Ver).format
+//@   ensures [C03.format] result == optV(f) ++ decText(v.Major) ++ "." ++ decText(v.Minor) ++ "." ++ decText(v.Patch) ++ optPre(v) ++ v.PreRelease ++ optBuild(v) ++ v.Build
+//@ func (Ver).String
+//@   ensures [C03.format] result == decText(v.Major) ++ "." ++ decText(v.Minor) ++ "." ++ decText(v.Patch) ++ optPre(v) ++ v.PreRelease ++ optBuild(v) ++ v.Build
+//@ func (Ver).StringTag
+//@   ensures [C03.format] result == "v" ++ decText(v.Major) ++ "." ++ decText(v.Minor) ++ "." ++ decText(v.Patch) ++ optPre(v) ++ v.PreRelease ++ optBuild(v) ++ v.Build
+//@ func (Ver).MarshalText
+//@   ensures [C03.format] err == nil && r0 == decText(v.Major) ++ "." ++ decText(v.Minor) ++ "." ++ decText(v.Patch) ++ optPre(v) ++ v.PreRelease ++ optBuild(v) ++ v.Build
+//@   ensures fresh(r0)
+
+//@ func (*Ver).UnmarshalText
+//@   ensures [C17.recv] err != nil ==> *v == old(*v)
+//@   ensures [C03.accept C03.fields] parsed(data, formVersion|formTag, *v, err) || err != nil
+//@   ensures [C03.accept] err == nil <==> accepts(data, formVersion|formTag)
+//@   assigns *v
+
+//@ func (Ver).Valid
+//@   ensures [C03.valid] result == nil <==> (v.PreRelease == "" || in(preRelease, v.PreRelease)) && (v.Build == "" || in(build, v.Build))
+//@   ensures [C03.valid] result != nil && !(v.PreRelease == "" || in(preRelease, v.PreRelease)) ==> errIs(result, ErrInvalidPreRelease)
+//@   ensures [C03.valid] result != nil && (v.PreRelease == "" || in(preRelease, v.PreRelease)) ==> errIs(result, ErrInvalidBuild)
+
+var _ = []any{DefaultParser[string], DefaultParser[[]byte], Parse[string], Parse[[]byte], ParseVersion[string], ParseVersion[[]byte], ParseTag[string], ParseTag[[]byte],
+	unmarshalText[string], unmarshalText[[]byte]}
